@@ -16,7 +16,8 @@ TECHNIQUE = 'property-based testing (Hypothesis): generated abstract networks (A
 RULE = (
     "Hypothesis-generated abstract networks (0-12 reactions over 2-10 species; 1-3 reactants with repetition, "
     "0-5 products, catalysts, pseudo-reactants, duplicates, required-unreacting species, ice/grain/electron species, "
-    "synthetic heating/cooling processes; API route and native-file route) rendered for all four back-ends; the "
+    "synthetic heating/cooling processes; a quarter with user ODE modifiers - factors that are sums starting with a minus sign "
+    "included - whose terms are added to the reference; API route, native-file route and multi-format route) rendered for all four back-ends; the "
     "emitted ydot statements are normalised to exact polynomials in k[], kh[], kc[], y[] and compared with the "
     "mass-action polynomial computed from the abstract network. Non-trivial = network has a repeated reactant, "
     ">=3 reactants, a catalyst, a pseudo-reactant, a duplicate reaction or a thermal row; distinct = sha1 of the "
@@ -38,7 +39,8 @@ def budget(tier):
 
 @st.composite
 def _case(draw, big=False):
-    case = draw(M.network(max_species=25 if big else 10, max_reactions=60 if big else 12, thermal=True, modifiers=False))
+    # (a quarter of the networks carries user ODE modifiers: the derivative is then the mass-action law plus exactly those terms)
+    case = draw(M.network(max_species=25 if big else 10, max_reactions=60 if big else 12, thermal=True, modifiers=draw(st.integers(0, 3)) == 0))
     case["route"] = draw(st.sampled_from(["api", "api", "file", "multi"]))
     if case["route"] == "multi":
         case["multi_formats"] = draw(st.lists(st.sampled_from(["kida", "umist", "leeds", "uclchem", "naunet"]), min_size=2, max_size=3))
@@ -163,6 +165,7 @@ def build_multi(case):
             required_species=[names[i] for i in case.get("required", [])],
             heating=[f"VT_H{j}" for j in range(len(case.get("heating", [])))],
             cooling=[f"VT_C{j}" for j in range(len(case.get("cooling", [])))],
+            ode_modifier=N.ode_modifier_dict(case),
         )
     finally:
         import shutil
